@@ -118,7 +118,7 @@ fn main() {
             let mut groups = Vec::new();
             for kind in subjects::KINDS {
                 let subs = subjects::subjects(kind, &lits_for(tier), &flags_for(kind, tier));
-                let inp = gen::inputs(kind, tier);
+                let inp = gen::inputs_seq(kind, tier, tier.pick(3, 4));
                 sample_docs(&mut report, kind, &inp.sequences);
                 let mut docs = inp.all();
                 // extreme decimal numbers at every number position (the C06 boundary documents)
@@ -161,11 +161,11 @@ fn main() {
             "every well-formed corpus document x streaming subject, delivered by a source that hands out at most the rest of the current line per read (choice: any shorter amount; deviation bounded) x chunk sizes; at the moment each item is returned the source must not have been asked beyond the line that completes the item (completing line = line containing the end of the shortest prefix on which the parser, given end of input, returns the same item)".into()
         }
         "C03" => {
-            c03::run(tier, &mut report, &|kind| gen::inputs(kind, tier).all());
+            c03::run(tier, &mut report, &|kind| gen::inputs_seq(kind, tier, tier.pick(3, 4)).all());
             c03::RULE.into()
         }
         "C06" => {
-            c06::run(tier, &mut report, &|kind| gen::inputs(kind, tier).all());
+            c06::run(tier, &mut report, &|kind| gen::inputs_seq(kind, tier, tier.pick(3, 4)).all());
             c06::RULE.into()
         }
         "C07" => {
@@ -193,6 +193,9 @@ fn c10_cases() -> Vec<(Box<dyn Subject>, generic::StreamCase)> {
         (subjects::make("cnf", "i64", true), case("cnf-headerless", b"", b"12345678 -123456789 0\n7 0\n", b"1 0", 24)),
         (subjects::make("wcnf", "i32", false), case("wcnf", b"p wcnf 9 0 100\n", b"5 1 -2 0\n18446744073709551615 -9 0\nc x\n", b"", 32)),
         (subjects::make("gcnf", "i32", false), case("gcnf", b"p gcnf 9 0 7\n", b"{1} 1 -2 0\n{7} -9 0\n", b"", 16)),
+        (subjects::make("cnf", "i32", false), case("cnf-comment-run", b"p cnf 1 1\n", b"c a comment line\n", b"1 0\n", 20)),
+        (subjects::make("wcnf", "i32", true), case("wcnf-blank-and-comment-run", b"", b"c x\n\n \t\n", b"3 1 0\n", 12)),
+        (subjects::make("cnf", "i32", false), case("cnf-split-clause-comments", b"1\n", b"c inside a clause\n\n", b"0\n", 20)),
     ]
 }
 
